@@ -163,6 +163,13 @@ P = {
         "components": comp(real=["listener/agent: serv loop, conn2 framing, messages codec, agentConnection, Connections; libdisco server and client (real handshake and encryption)"], stub=["stub echo service", "scripted agent built on the package's own message types"], simulated=["the TCP stream between agent and listener"]),
         "assumptions": ["the codec's round trip is exercised by the traffic that crosses the tunnel in both directions, not enumerated separately"],
     },
+    "C15": {
+        "runs": {"quick": 3000, "thorough": 300000},
+        "budget_s": {"quick": 200, "thorough": 3300},
+        "rule": "one scenario = http-proxy, copy (tcp or udp) or dns-proxy configured with the real forward director (host with or without port) and 1-3 clients each performing 1-4 exchanges: HTTP requests (7 methods, repeated header names, bodies up to 64 KiB, content-length or chunked, lock-step or pipelined, seeded segmentation) answered by a scripted backend inside the bubble with seeded segmentation of the reply; raw streams answered by a byte-transforming backend; datagrams / DNS queries answered by a UDP backend; a decoy backend on another address; optionally the backend refuses the connection or closes mid-reply; distinct = distinct trace digest; non-trivial = several clients or a segmented/pipelined request",
+        "components": comp(real=["services http-proxy, copy, dns-proxy; director/forward (dial through the simulated kernel)"], stub=["scripted HTTP / raw / UDP backends and a decoy inside the bubble"]),
+        "assumptions": ["ssh-proxy is not covered yet", "Content-Length / Transfer-Encoding framing may be re-done by the proxy; everything else of a message must be unchanged"],
+    },
 }
 
 def get(prop):
